@@ -3,6 +3,7 @@
 package storage
 
 import (
+	"os"
 	"sort"
 	"sync"
 )
@@ -164,3 +165,18 @@ func (rs *RelationService) VerifCacheLen() int {
 func (rs *RelationService) VerifHeader() (lastKey uint32, pageTableRoot, nextFreeOffset, nextLSN uint64) {
 	return rs.fs.lastKey, rs.fs.pageTableRoot, rs.fs.nextFreeOffset, rs.fs._nextLSN
 }
+
+// verifWAL wraps the log file so that EVERY physical write to it announces
+// itself (point wal.fwrite, arg = bytes about to be written), independently of
+// how the code that builds the records is arranged.
+type verifWAL struct{ f *os.File }
+
+func (v verifWAL) Read(p []byte) (int, error) { return v.f.Read(p) }
+func (v verifWAL) Write(p []byte) (int, error) {
+	verifPoint("wal.fwrite", uint64(len(p)))
+	return v.f.Write(p)
+}
+func (v verifWAL) Close() error { return v.f.Close() }
+func (v verifWAL) Sync() error  { return v.f.Sync() }
+
+func verifWALFile(f *os.File) readWriteSyncCloser { return verifWAL{f} }
